@@ -54,9 +54,13 @@ def probe(st, sub, cls, s, scn):
             getattr(e, a)()
             if not v:
                 st.violation(sub, a + "-returns-on-invalid-record", scn(), "InvalidSequence", "returned")
-        except errors.InvalidSequence:
+        except errors.InvalidSequence as ex:
             if v:
                 st.violation(sub, a + "-raises-on-valid-record", scn(), "a value", "InvalidSequence")
+            try:
+                str(ex), repr(ex)           # a reported error must be printable
+            except Exception as ex2:
+                st.violation(sub, "error-message-raises-" + type(ex2).__name__, scn(), "a message", "{}: {}".format(type(ex2).__name__, str(ex2)[:120]))
         except Exception as ex:
             st.violation(sub, a + "-raises-" + type(ex).__name__, scn(), "InvalidSequence" if not v else "a value",
                          "{}: {}".format(type(ex).__name__, str(ex)[:120]))
@@ -205,6 +209,10 @@ def run_mixed(st, sub, enz, strings, scn):
     elif o.kind == "moclo-error":
         st.goal("assembly-moclo-error")
         out = "moclo-error:" + o.exc_name
+        try:
+            str(o.exc), repr(o.exc)
+        except Exception as ex2:
+            st.violation(sub, "error-message-raises-" + type(ex2).__name__, scn, "a message", "{}: {}".format(type(ex2).__name__, str(ex2)[:120]))
     elif o.kind == "timeout":
         st.violation(sub, "nontermination", scn, "product or MocloError", "timeout")
         out = "timeout"
